@@ -52,6 +52,7 @@ extern "C" int LLVMFuzzerTestOneInput(const uint8_t *data, size_t size) {
   vp::Target &t = vp::target();
   vp::Ctx ctx(data, size, false);
   try {
+    vp::alloc_reset();
     if (t.reset) t.reset();
     t.run(ctx);
   } catch (vp::Fail &f) {
